@@ -291,9 +291,30 @@ int run(const Options& o)
                 w.restore(img);
                 if ((k & 63) == 63) a.flush(em);
             }
-            // removed handles keep their identity
-            for (size_t k = 0; k < w.tracks.size(); ++k)
-                if (!m.t[k] && w.tracks[k].is_valid()) a.count("stale_track_valid_again");
+            // removed handles keep their identity: is_valid() == false (unless the id has been given to a newer live entity,
+            // which schema 1.x does: C07's known finding) and id() is still answered
+            {
+                const std::string fam = w.v2 ? "v2" : "v1";
+                std::set<int64_t> live_t, live_c;
+                for (size_t k = 0; k < w.tracks.size(); ++k)
+                    if (m.t[k]) live_t.insert(w.tracks[k].id());
+                for (size_t k = 0; k < w.crates.size(); ++k)
+                    if (m.c[k].live) live_c.insert(w.crates[k].id());
+                for (size_t k = 0; k < w.tracks.size(); ++k)
+                {
+                    a.count("evaluations");
+                    bool valid = w.tracks[k].is_valid();
+                    if (m.t[k] && !valid) a.violation(fam + "|track::is_valid|live_handle_invalid", "[" + schema_name(*sch) + "] handle of a live track reports is_valid() == false", state + "#handles");
+                    if (!m.t[k] && valid && !live_t.count(w.tracks[k].id())) a.violation(fam + "|track::is_valid|removed_handle_valid", "[" + schema_name(*sch) + "] handle of a removed track reports is_valid() == true", state + "#handles");
+                }
+                for (size_t k = 0; k < w.crates.size(); ++k)
+                {
+                    a.count("evaluations");
+                    bool valid = w.crates[k].is_valid();
+                    if (m.c[k].live && !valid) a.violation(fam + "|crate::is_valid|live_handle_invalid", "[" + schema_name(*sch) + "] handle of a live crate reports is_valid() == false", state + "#handles");
+                    if (!m.c[k].live && valid && !live_c.count(w.crates[k].id())) a.violation(fam + "|crate::is_valid|removed_handle_valid", "[" + schema_name(*sch) + "] handle of a removed crate reports is_valid() == true", state + "#handles");
+                }
+            }
             a.count("states");
             a.seen("nontrivial", state);
             a.flush(em);
